@@ -197,15 +197,45 @@ func (env *SpecEnv) eval(e *Expr) *Value {
 		for _, p := range e.Pats {
 			var pt []*Term
 			for _, pe := range p {
-				pt = append(pt, inner.eval(pe).Term)
+				pv := inner.eval(pe)
+				var t *Term
+				if pv.K == KScalar {
+					t = pv.Term
+				} else {
+					t = leafTerms(pv)[0]
+				}
+				// "k in m" is (m != nil && present[m][k]): the trigger is the select
+				for t.Op == "and" {
+					t = t.Args[len(t.Args)-1]
+				}
+				pt = append(pt, t)
 			}
 			pats = append(pats, pt)
 		}
+		if e.Op == "forall" {
+			// flatten  forall x :: A ==> (forall y :: B)  into one quantifier so that triggers can cover all variables
+			full := Implies(And(ranges...), body)
+			for {
+				var ante []*Term
+				cur := full
+				for cur.Op == "=>" {
+					ante = append(ante, cur.Args[0])
+					cur = cur.Args[1]
+				}
+				if cur.Op != "forall" || len(e.Pats) > 0 {
+					break
+				}
+				bound = append(bound, cur.Bound...)
+				full = Implies(And(ante...), cur.Args[0])
+				pats = nil
+			}
+			if len(pats) == 0 {
+				pats = autoPatterns(bound, full)
+			}
+			return scalar(tBool, Forall(bound, full, pats...))
+		}
 		if len(pats) == 0 {
 			pats = autoPatterns(bound, body)
-		}
-		if e.Op == "forall" {
-			return scalar(tBool, Forall(bound, Implies(And(ranges...), body), pats...))
 		}
 		return scalar(tBool, Exists(bound, And(append(ranges, body)...), pats...))
 	case "field":
@@ -541,7 +571,6 @@ func derefType(v *Value) types.Type {
 func (env *SpecEnv) field(e *Expr) *Value {
 	x := env.x
 	base := env.eval(e.Args[0])
-	// interface accessor without parens is not allowed; fields only
 	t := base.T
 	if base.K == KPtr {
 		t = derefType(base)
@@ -552,30 +581,35 @@ func (env *SpecEnv) field(e *Expr) *Value {
 		specFail("no field %s in %s", e.Name, t)
 	}
 	cur := base
-	ct := t
+	ct := t // type of the struct currently being indexed (never a pointer)
 	for _, fi := range index {
-		// auto-deref pointers along the way (embedded pointers)
-		if cur.K == KPtr {
-			np := *cur.P
-			if np.Cell != nil {
-				cur = x.load(env.cur, cur.P, derefType(cur))
-				cur = cur.Fields[fi]
+		st, isStruct := under(ct).(*types.Struct)
+		if !isStruct {
+			specFail("field %s of non-struct %s", e.Name, e.Args[0])
+		}
+		ft := st.Field(fi).Type()
+		switch cur.K {
+		case KPtr:
+			if cur.P.Cell != nil {
+				cur = x.load(env.cur, cur.P, derefType(cur)).Fields[fi]
 			} else {
+				np := *cur.P
 				np.Path = append(append([]PathElem(nil), cur.P.Path...), PathElem{Field: fi})
 				if np.ObjT == nil {
 					np.ObjT = ct
 				}
-				ft := under(ct).(*types.Struct).Field(fi).Type()
 				cur = x.load(env.cur, &np, ft)
 			}
-		} else if cur.K == KStruct {
+		case KStruct:
 			cur = cur.Fields[fi]
-		} else {
+		default:
 			specFail("field %s of non-struct %s", e.Name, e.Args[0])
 		}
-		ct = under(ct).(*types.Struct).Field(fi).Type()
-		if pt, isPtr := under(ct).(*types.Pointer); isPtr && fi != index[len(index)-1] {
+		// continue through embedded pointers
+		if pt, isPtr := under(ft).(*types.Pointer); isPtr {
 			ct = pt.Elem()
+		} else {
+			ct = ft
 		}
 	}
 	return cur
@@ -590,6 +624,12 @@ func (env *SpecEnv) pkgOf(t types.Type) *types.Package {
 
 func (env *SpecEnv) indexValue(base, idx *Value, e *Expr) *Value {
 	x := env.x
+	if base.K == KTuple {
+		if idx.Term == nil || idx.Term.Op != "int" || !idx.Term.Int.IsInt64() || int(idx.Term.Int.Int64()) >= len(base.Fields) {
+			specFail("result tuple must be indexed by a literal: %s", e)
+		}
+		return base.Fields[idx.Term.Int.Int64()]
+	}
 	switch {
 	case base.K == KSlice:
 		et := under(base.T).(*types.Slice).Elem()
@@ -644,6 +684,20 @@ func (env *SpecEnv) call(e *Expr) *Value {
 		specFail("len of %s", args[0])
 	case "jhas", "jok", "jfield", "jstr", "jint", "jbool", "jdecoded", "jstrs", "jmapint":
 		return env.specJSON(name, args)
+	case "get":
+		// get(m, k): the value stored for k (unspecified when k is absent) — no zero-value fallback
+		m := env.eval(args[0])
+		if m.K == KPtr {
+			m = env.deref(m)
+		}
+		if _, ok := under(m.T).(*types.Map); !ok {
+			specFail("get: not a map")
+		}
+		return x.mapGetRaw(env.cur, m.T, m.Term, env.keyFor(env.eval(args[1]), m.T))
+	case "indexByte":
+		return scalar(tInt, x.indexByte(env.eval(args[0]).Term, env.eval(args[1]).Term))
+	case "lastIndexByte":
+		return scalar(tInt, x.lastIndexByte(env.eval(args[0]).Term, env.eval(args[1]).Term))
 	case "hasPrefix":
 		return scalar(tBool, x.hasPrefixTerm(env.eval(args[0]).Term, env.eval(args[1]).Term))
 	case "hasSuffix":
